@@ -346,6 +346,11 @@ def handle : R String := do
     let p := Loc.posAfter (s.take off)
     let line := (Loc.fileLines s).getD (p.1 - 1) []
     pure s!"{p.1} {p.2} {wStr line} {wStr (Loc.alignCaret line p.2)}"
+  | "tigerdiv" => do
+    let l ← int
+    let r ← int
+    let w (x : Except PyErr Int) : String := match x with | .ok v => s!"{v}" | .error e => s!"err:{e.name}"
+    pure s!"{w (Tiger.divU l r)} {w (Tiger.modU l r)}"
   | "wf" => do
     let v ← vm
     pure (wBool (wfb v))
